@@ -1351,3 +1351,27 @@ lemma(
     ghost_args={f"{GBX}:geobox_union_conservative": _assoc_binder},
     note="over the contract of union: every intermediate result is re-described as a family on its own first member's grid and that description is checked by the stub",
 )
+
+
+def _lemma_gcp_resolution(ny, nx, pa, pe, pc, pf, a, e, c, f):
+    """resolution of a GCP GeoBox VIEW: pixel size of the best linear fit COMPOSED with the view's pixel affine"""
+    aff = repo("affine").Affine
+    M = GhostMapping()
+    M.approx = aff(pa, 0, pc, 0, pe, pf)
+    M.resolution = repo(TYPES).Resolution(pa, pe)  # what the un-derived mapping alone would report
+    A = aff(a, 0, c, 0, e, f)
+    g = _gcp_box((ny, nx), A, M)
+    ap = g.approx
+    claim(aff_eq(ap.affine, M.approx * A) and And(ap.shape.x == nx, ap.shape.y == ny) and ap.crs is M.crs, "approx: the linear fit of the control points composed with the view's pixel affine, same shape and CRS")
+    r = g.resolution
+    claim(And(r.x == pa * a, r.y == pe * e), "resolution follows the view: zooming out by f multiplies the pixel size by f (it is NOT the un-zoomed mapping's)")
+
+
+lemma(
+    "gcp.resolution_follows_the_view",
+    ["C02"],
+    inputs=dict(ny=Int(ge=1), nx=Int(ge=1), pa=Real(gt=0), pe=Real(lt=0), pc=Real(), pf=Real(), a=Real(gt=0), e=Real(gt=0), c=Real(), f=Real()),
+    body=_lemma_gcp_resolution,
+    ghost_args={},
+    note="axis-aligned fit and view (the rotated case goes through decompose_rws: bounded, C20)",
+)
